@@ -2,7 +2,8 @@
    Proved here: the accept rule, for any policies and any history.  The controller formulas are
    the model's definitions (Rosenbrock.v: ros_iter, ros_solve), tied to the code exactly by the
    scripted-policy correspondence check; bounds on H are evaluated by the implementation oracle. *)
-From Model Require Import Base Rosenbrock IntegratorProofs.
+From Model Require Import Base Dense Rosenbrock IntegratorProofs ErrorNorm ErrorNormProofs.
+From Coq Require Import List Permutation Ring.
 Local Open Scope nat_scope.
 
 (* an attempt is accepted iff its error norm is below 1 or H is already below h_min; a NaN or
@@ -16,3 +17,42 @@ Theorem C07_accept_iff_error_below_one_or_H_below_hmin :
                           add_diag forcing negjac in_place factor_sep solve_sep factor_ip solve_ip nerr p fuel time_step s)).
 Proof. exact ros_accept_iff. Qed.
 Print Assumptions C07_accept_iff_error_below_one_or_H_below_hmin.
+
+(* the slots NormalizedError / IsConverged visit, as coded (whole groups by running index with tolerance index
+   (i / L) mod n; then the trailing partial group column by column), are exactly the real (cell, species) elements,
+   each once, each with its own species' tolerance - for every vector length L, every cell count (multiples of L,
+   a trailing partial group, fewer cells than lanes) and every species count *)
+Theorem C07_error_norm_visits_every_element_once :
+  forall ncells nspec, 0 < nspec ->
+    Permutation (norm_slots RowMajor ncells nspec nspec) (logical_slots RowMajor ncells nspec) /\
+    forall L, 0 < L -> Permutation (norm_slots (Grouped L) ncells nspec nspec) (logical_slots (Grouped L) ncells nspec).
+Proof. intros ncells nspec Hn. split; [apply norm_slots_rowmajor; exact Hn | intros L HL; apply norm_slots_grouped; assumption]. Qed.
+Print Assumptions C07_error_norm_visits_every_element_once.
+
+(* hence, over a commutative ring, the error norm is the RMS over all cells and species of
+   error / (atol_s + rtol * max(|y|, |y_new|)), floored at error_min (sqrt, abs, max are the caller's) *)
+Theorem C07_error_norm_is_rms :
+  forall (N : Num), ring_theory (n0 N) (n1 N) (nadd N) (nmul N) (nsub N) (nopp N) eq ->
+  forall ltb nabs sqrt of_nat ly ncells nspec atol rtol error_min y ynew err,
+    match ly with RowMajor => True | Grouped L => 0 < L end -> 0 < nspec -> length atol = nspec ->
+    normalized_error N ltb nabs sqrt of_nat ly ncells nspec atol rtol error_min y ynew err =
+    emax N ltb
+      (sqrt (ndiv N
+               (fold_left (fun s cs => let r := scaled N ltb nabs ly nspec atol rtol y ynew err cs in nadd N s (nmul N r r))
+                          (list_prod (seq 0 ncells) (seq 0 nspec)) (n0 N))
+               (of_nat (ncells * nspec))))
+      error_min.
+Proof. exact normalized_error_is_rms. Qed.
+Print Assumptions C07_error_norm_is_rms.
+
+(* backward Euler's convergence test looks at every real element with that species' tolerance *)
+Theorem C07_is_converged_tests_every_element :
+  forall (N : Num) ltb nabs ly ncells nspec atol rtol small resid yn1,
+    match ly with RowMajor => True | Grouped L => 0 < L end -> 0 < nspec -> length atol = nspec ->
+    (is_converged N ltb nabs ly ncells nspec atol rtol small resid yn1 = true <->
+     forall c s, c < ncells -> s < nspec ->
+       let i := lay_addr ly nspec c s in
+       let r := nabs (nth i resid (n0 N)) in
+       (ltb small r && ltb (nth s atol (n0 N)) r && ltb (nmul N rtol (nabs (nth i yn1 (n0 N)))) r) = false).
+Proof. exact is_converged_tests_every_element. Qed.
+Print Assumptions C07_is_converged_tests_every_element.
